@@ -37,6 +37,9 @@ Chk(name, idx, cond) == cond \/ (PrintT(<<"FAIL", name, idx>>) /\ FALSE)
 \* finding `fname` holds for this event (known_findings.json matches on that marker)
 ChkF(name, idx, cond, fname, fcond) ==
   cond \/ (PrintT(<<"FAIL", name, idx>>) /\ (fcond => PrintT(<<"FINDING", fname, idx>>)) /\ FALSE)
+ChkF4(name, idx, cond, f1, c1, f2, c2, f3, c3) ==
+  cond \/ (PrintT(<<"FAIL", name, idx>>) /\ (c1 => PrintT(<<"FINDING", f1, idx>>)) /\ (c2 => PrintT(<<"FINDING", f2, idx>>))
+               /\ (c3 => PrintT(<<"FINDING", f3, idx>>)) /\ FALSE)
 ChkF2(name, idx, cond, f1, c1, f2, c2) ==
   cond \/ (PrintT(<<"FAIL", name, idx>>) /\ (c1 => PrintT(<<"FINDING", f1, idx>>)) /\ (c2 => PrintT(<<"FINDING", f2, idx>>)) /\ FALSE)
 
@@ -519,18 +522,24 @@ InnermostOuter(tree, p) ==
   IF cands = {} THEN 0
   ELSE CHOOSE k \in cands : \A m \in cands : Abs(Area2(tree[k].poly)) <= Abs(Area2(tree[m].poly))
 
-C04OK(e) ==
+\* thinner than the rounding band: doubled area at most 4 x (1-norm) perimeter, i.e. mean width <= 2
+Sliver(path) == Abs(Area2(path)) <= 4 * Perim1(path)
+\* contained in one horizontal or vertical line (the tree builder skips such paths: empty bounds)
+LineDegenerate(path) == (\A i \in 1..Len(path) : path[i][2] = path[1][2]) \/ (\A i \in 1..Len(path) : path[i][1] = path[1][1])
+
+\* flat: the flat result to compare with; waive: do not demand the orientation clause of slivers
+C04Gen(e, flat, waive) ==
   LET T == e.tree  polys == [k \in 1..Len(e.tree) |-> e.tree[k].poly]
       FarT(p) == FarClosed(p, polys, Band4) IN
   \* the same polygons as the flat result, each exactly once
-  /\ Len(T) = Len(e.flat)
-  /\ \A k \in 1..Len(T) : CountCyclic(T[k].poly, polys) = CountCyclic(T[k].poly, e.flat)
+  /\ Len(T) = Len(flat)
+  /\ \A k \in 1..Len(T) : CountCyclic(T[k].poly, polys) = CountCyclic(T[k].poly, flat)
   \* structure: depth-first order, levels, IsHole <=> negative orientation <=> even level >= 2
   /\ \A k \in 1..Len(T) :
        /\ T[k].parent \in 0..(k - 1)
        /\ T[k].level = (IF T[k].parent = 0 THEN 1 ELSE T[T[k].parent].level + 1)
        /\ T[k].isHole = (T[k].level % 2 = 0)
-       /\ T[k].isHole = (Area2(T[k].poly) < 0)
+       /\ (waive /\ Sliver(T[k].poly)) \/ T[k].isHole = (Area2(T[k].poly) < 0)
   \* every node lies inside its parent (vertices within the band; interior probes inside)
   /\ \A k \in 1..Len(T) : T[k].parent # 0 =>
        \A i \in 1..Len(T[k].poly) : InOrNear(T[T[k].parent].poly, T[k].poly[i])
@@ -545,6 +554,16 @@ C04OK(e) ==
          /\ \A k \in 1..Len(T) :
               (T[k].isHole /\ WnPath(p, T[k].poly) # 0 /\ \A c \in 1..Len(T) : T[c].parent = k => WnPath(p, T[c].poly) = 0)
                  => InnermostOuter(T, p) = T[k].parent
+
+C04OK(e) == C04Gen(e, e.flat, FALSE)
+
+\* signature of the listed finding "tree-drops-line-paths": the flat result contains zero-area paths lying in one
+\* horizontal / vertical line which the tree builder skips (empty bounds); everything else is as demanded
+C04SigLinePaths(e) ==
+  LET f == SelectSeq(e.flat, LAMBDA q : ~LineDegenerate(q)) IN Len(f) # Len(e.flat) /\ C04Gen(e, f, FALSE)
+\* signature of the listed finding "tree-sliver-orientation": the only failing clause is the orientation of
+\* polygons thinner than the rounding band (the sweep can emit such slivers with either orientation)
+C04SigSliver(e) == C04Gen(e, e.flat, TRUE)
 
 \* signature of the listed finding "tree-touching": two different result polygons come within the rounding
 \* band of each other (a vertex of one within 2 units of an edge of the other), which is where the
@@ -567,7 +586,8 @@ ContainedInParents(e) ==
 TreeOpOK(e, idx) ==
   /\ Chk("OUT", idx, OutOK(e))
   /\ Has(e, "ARGS") => Chk("ARGS", idx, e.argsSame)
-  /\ Has(e, "C04") => ChkF("C04", idx, C04OK(e), "tree-touching", Len(e.tree) = Len(e.flat) /\ TouchingPolys(e) /\ ContainedInParents(e))
+  /\ Has(e, "C04") => ChkF4("C04", idx, C04OK(e), "tree-touching", Len(e.tree) = Len(e.flat) /\ TouchingPolys(e) /\ ContainedInParents(e),
+                                        "tree-drops-line-paths", C04SigLinePaths(e), "tree-sliver-orientation", C04SigSliver(e))
 
 (***************************************************************************)
 (* Open subject paths (C09).  All coordinates of the observation are in    *)
